@@ -4,6 +4,7 @@
 -/
 import RigoProofs.C15Vote
 import RigoProofs.C13C15TxFrame
+import RigoProofs.WrapI64
 
 namespace Rigo.C15
 open Rigo
@@ -99,8 +100,36 @@ structure ProposalAccepted (s : St) (e : Bool) (h : Int) (tx : TxIn) (msg : Hex)
   hasOption : opts ≠ []
   parse : optType = PROPOSAL_GOVPARAMS → ∀ o ∈ opts, o.parsedV.isSome
 
-theorem validateProposal_ok {s s1 : St} {e : Bool} {h : Int} {tx : TxIn} (hv : validateProposal s e h tx = .ok s1) :
-    ∃ msg start period applying optType opts, ProposalAccepted s e h tx msg start period applying optType opts := by
+/-- what a successful validation establishes WITHOUT any hypothesis: `ProposalAccepted` with the height tests as the
+    Go code performs them, in int64 (`HeightsAccepted`), in place of `lazyApply` -/
+structure ProposalAcceptedW (s : St) (e : Bool) (h : Int) (tx : TxIn) (msg : Hex) (start period applying optType : Int)
+    (opts : List VoteOpt) : Prop where
+  payload : tx.payload = .proposal msg start period applying optType opts
+  toZero : byteLen tx.to = 20 ∧ isZeroAddr tx.to = true
+  isValidator : ∃ d ∈ s.lastVals, d.addr = tx.from_
+  fresh : s.props.get e (ledgerKey tx.hash) = none
+  future : start > h
+  periodMin : s.active.minVotingPeriodBlocks ≤ period
+  periodMax : period ≤ s.active.maxVotingPeriodBlocks
+  heights : HeightsAccepted start period s.active.lazyApplyingBlocks applying
+  hasOption : opts ≠ []
+  parse : optType = PROPOSAL_GOVPARAMS → ∀ o ∈ opts, o.parsedV.isSome
+
+/-- under `ProposalHeightsFit` (int64 fields, no overflow of `start + period + lazyApplyingBlocks`) the int64 tests
+    are the inequalities on unbounded integers -/
+theorem ProposalAcceptedW.toAccepted {s : St} {e : Bool} {h : Int} {tx : TxIn} {msg : Hex}
+    {start period applying optType : Int} {opts : List VoteOpt}
+    (acc : ProposalAcceptedW s e h tx msg start period applying optType opts) (hfit : ProposalHeightsFit s tx) :
+    ProposalAccepted s e h tx msg start period applying optType opts := by
+  unfold ProposalHeightsFit at hfit
+  rw [acc.payload] at hfit
+  simp only at hfit
+  obtain ⟨hs, hp, hl, hf⟩ := hfit
+  exact ⟨acc.payload, acc.toZero, acc.isValidator, acc.fresh, acc.future, acc.periodMin, acc.periodMax,
+    (acc.heights.unbounded hs hp hl hf).1, acc.hasOption, acc.parse⟩
+
+theorem validateProposal_okW {s s1 : St} {e : Bool} {h : Int} {tx : TxIn} (hv : validateProposal s e h tx = .ok s1) :
+    ∃ msg start period applying optType opts, ProposalAcceptedW s e h tx msg start period applying optType opts := by
   unfold validateProposal at hv
   simp only [bind, Except.bind, pure, Except.pure, throw, throwThe, MonadExceptOf.throw] at hv
   split at hv
@@ -125,6 +154,7 @@ theorem validateProposal_ok {s s1 : St} {e : Bool} {h : Int} {tx : TxIn} (hv : v
     rename_i hparse
     split at hv
     · cases hv
+    rename_i hend
     split at hv
     · cases hv
     rename_i happ
@@ -132,7 +162,7 @@ theorem validateProposal_ok {s s1 : St} {e : Bool} {h : Int} {tx : TxIn} (hv : v
     · cases hv
     rename_i hemp
     refine ⟨msg, start, period, applying, optType, opts, hpay, by simpa using hto, ?_, ?_, by omega, by omega, by omega,
-      by omega, by simpa using hemp, ?_⟩
+      ⟨by omega, by omega, by omega⟩, by simpa using hemp, ?_⟩
     · have hval' : s.isValidator tx.from_ = true := by simpa using hval
       unfold St.isValidator at hval'
       rw [List.any_eq_true] at hval'
@@ -149,6 +179,14 @@ theorem validateProposal_ok {s s1 : St} {e : Bool} {h : Int} {tx : TxIn} (hv : v
       | some _ => rfl
   · cases hv
 
+/-- the unbounded inequalities need `ProposalHeightsFit` since the model follows Go's int64 sums
+    (without it: `C15.proposal_overflow_accepted`) -/
+theorem validateProposal_ok {s s1 : St} {e : Bool} {h : Int} {tx : TxIn} (hv : validateProposal s e h tx = .ok s1)
+    (hfit : ProposalHeightsFit s tx) :
+    ∃ msg start period applying optType opts, ProposalAccepted s e h tx msg start period applying optType opts := by
+  obtain ⟨msg, start, period, applying, optType, opts, acc⟩ := validateProposal_okW hv
+  exact ⟨msg, start, period, applying, optType, opts, acc.toAccepted hfit⟩
+
 theorem execProposal_ok {s : St} {e : Bool} {tx : TxIn} {msg : Hex} {start period applying optType : Int} {opts : List VoteOpt}
     (hp : tx.payload = .proposal msg start period applying optType opts) :
     execProposal s e tx =
@@ -157,10 +195,10 @@ theorem execProposal_ok {s : St} {e : Bool} {tx : TxIn} {msg : Hex} {start perio
   rw [hp]
   rfl
 
-/-- `only_validators_propose` + `voters_are_snapshot`, on either path -/
-theorem proposal_success {s : St} {e : Bool} {h : Int} {tx : TxIn} (htype : tx.type = TRX_PROPOSAL)
+/-- `only_validators_propose` + `voters_are_snapshot`, on either path; hypothesis-free form (height tests in int64) -/
+theorem proposal_successW {s : St} {e : Bool} {h : Int} {tx : TxIn} (htype : tx.type = TRX_PROPOSAL)
     (hc : (handleTx s e h tx).2.code = 0) :
-    ∃ msg start period applying optType opts, ProposalAccepted s e h tx msg start period applying optType opts ∧
+    ∃ msg start period applying optType opts, ProposalAcceptedW s e h tx msg start period applying optType opts ∧
       (handleTx s e h tx).1.props = s.props.set e (ledgerKey tx.hash) (snapshotProposal s tx start period applying optType opts) := by
   obtain ⟨_, sender, s1, s2, g, _, hval, hrun, hres⟩ := handleTx_success hc
   obtain ⟨hfr, _, hfp, _⟩ := findOrNewAcct_frAll s e tx.to
@@ -171,7 +209,7 @@ theorem proposal_success {s : St} {e : Bool} {h : Int} {tx : TxIn} (htype : tx.t
   obtain ⟨_, _, hvp⟩ := bind_chain_ok hval
   have hs1 := validateProposal_eq hvp
   subst hs1
-  obtain ⟨msg, start, period, applying, optType, opts, acc⟩ := validateProposal_ok hvp
+  obtain ⟨msg, start, period, applying, optType, opts, acc⟩ := validateProposal_okW hvp
   have hlv : s1.lastVals = s.lastVals := hfr.2.2.2.2.1
   have hact : s1.active = s.active := hfr.2.2.1
   have hpr : s1.props = s.props := hfp
@@ -188,6 +226,15 @@ theorem proposal_success {s : St} {e : Bool} {h : Int} {tx : TxIn} (htype : tx.t
     · rw [h2]; simp only []; rw [hpr, hsnap]
     · rw [h2]; simp only []; rw [hpr, hsnap]
     · rw [h2]; simp only [St.setAcct]; rw [hpr, hsnap]
+
+/-- `only_validators_propose` + `voters_are_snapshot`, on either path, with `applying ≥ start + period + lazy` on
+    unbounded integers: needs `ProposalHeightsFit` -/
+theorem proposal_success {s : St} {e : Bool} {h : Int} {tx : TxIn} (htype : tx.type = TRX_PROPOSAL)
+    (hc : (handleTx s e h tx).2.code = 0) (hfit : ProposalHeightsFit s tx) :
+    ∃ msg start period applying optType opts, ProposalAccepted s e h tx msg start period applying optType opts ∧
+      (handleTx s e h tx).1.props = s.props.set e (ledgerKey tx.hash) (snapshotProposal s tx start period applying optType opts) := by
+  obtain ⟨msg, start, period, applying, optType, opts, acc, hprops⟩ := proposal_successW htype hc
+  exact ⟨msg, start, period, applying, optType, opts, acc.toAccepted hfit, hprops⟩
 
 structure VoteAccepted (s : St) (e : Bool) (h : Int) (tx : TxIn) (hash : Hex) (choice : Int) (p : Proposal) : Prop where
   payload : tx.payload = .voting hash choice
